@@ -387,6 +387,15 @@ func weightRoutingGraphs() []histGraph {
 			{Op: "MatMul", Ins: []string{"wb", "wc"}, Outs: []string{"m3"}},
 		}, Outputs: []string{"gram", "g1", "g2", "m1", "m2", "m3", "wa"}}
 	out = append(out, histGraph{"matrix-products", gm, []NamedT{{"x", smallT("f32", []int{3, 3}, 7)}}, []NamedT{{"x", smallT("f32", []int{3, 2}, 7)}}, nil})
+	// attribute-backed tensors (Scaler / LinearRegressor share storage with the protobuf) with inputs that
+	// already have the attribute's shape
+	gsc := &GraphJ{Inputs: []VInfoJ{{Name: "x", Dt: "f32", Dims: []any{3}}, {Name: "x2", Dt: "f32", Dims: []any{1, 3}}},
+		Nodes: []NodeJ{
+			{Op: "Scaler", Attrs: []Attr{{Name: "offset", Type: "floats", Fs: []float64{1, 2, 3}}, {Name: "scale", Type: "floats", Fs: []float64{2, 3, 4}}}, Ins: []string{"x"}, Outs: []string{"s"}},
+			{Op: "Scaler", Attrs: []Attr{{Name: "offset", Type: "floats", Fs: []float64{1, 2, 3}}, {Name: "scale", Type: "floats", Fs: []float64{2, 3, 4}}}, Ins: []string{"x2"}, Outs: []string{"s2"}},
+			{Op: "LinearRegressor", Attrs: []Attr{{Name: "coefficients", Type: "floats", Fs: []float64{1, 0, -1}}, {Name: "intercepts", Type: "floats", Fs: []float64{1}}, {Name: "targets", Type: "i", I: 1}}, Ins: []string{"x2"}, Outs: []string{"y"}},
+		}, Outputs: []string{"s", "s2", "y"}}
+	out = append(out, histGraph{"ml-attrs-same-shape", gsc, []NamedT{{"x", smallT("f32", []int{3}, 2)}, {"x2", smallT("f32", []int{1, 3}, 3)}}, []NamedT{{"x", smallT("f32", []int{4}, 2)}, {"x2", smallT("f32", []int{1, 3}, 3)}}, nil})
 	out = append(out, histGraph{"reductions-passthrough", gw, []NamedT{{"x", smallT("f32", []int{2, 3}, 7)}}, []NamedT{{"x", smallT("f32", []int{3, 3}, 7)}}, nil})
 	return out
 }
